@@ -1,5 +1,6 @@
 import MLPE.DriverStore
 import MLPE.DriverEng
+import MLPE.DriverBuilder
 
 open MLPE
 
@@ -22,6 +23,7 @@ def main (args : List String) : IO UInt32 := do
   let stdout ← IO.getStdout
   match args with
   | ["store"] => loopLines stdin stdout Store.dStep {} {} ; return 0
+  | ["build"] => loopLines stdin stdout Builder.buildLine () () ; return 0
   | ["retry"] => loopLines stdin stdout Eng.retryLine () () ; return 0
   | ["sem"] => loopLines stdin stdout Eng.semLine () () ; return 0
   | ["eng"] => loopLines stdin stdout Eng.lsStep {} {} ; return 0
